@@ -267,7 +267,12 @@ def parse_css_color(s):
         return rgb, a, None
     if s in CSS_NAMES:
         return CSS_NAMES[s], 1.0, None
-    raise ValueError(f"oracle cannot parse colour {s!r}")
+    try:  # CSS colour names: PIL's table (independent of nanoemoji's)
+        from PIL import ImageColor
+
+        return tuple(ImageColor.getrgb(s)[:3]), 1.0, None
+    except Exception:
+        raise ValueError(f"oracle cannot parse colour {s!r}")
 
 
 # ------------------------------------------------------------------------------- expected
@@ -501,8 +506,10 @@ def otsvg_picture(doc_text, gid):
         fx, fy, fr = _num(g.get("fx"), cx), _num(g.get("fy"), cy), _num(g.get("fr"), 0.0)
         return ("radial", stops, extend, G, (fx, fy), fr, (cx, cy), r)
 
-    def render(el, T, inherited, depth=0):
-        """inherited: dict of presentation attributes inherited from ancestors / <use>."""
+    def render(el, T, inherited, depth=0, slack=0.0):
+        """inherited: dict of presentation attributes inherited from ancestors / <use>.
+        slack: bound (font units) on the displacement explained by the 3-decimal rounding of
+        the transform / x / y attributes above this element."""
         if depth > 16:
             problems.append("use nesting too deep")
             return []
@@ -511,12 +518,15 @@ def otsvg_picture(doc_text, gid):
         for k in ("fill",):
             if el.get(k) is not None:
                 attrs[k] = el.get(k)
+        if el.get("transform") is not None or el.get("x") is not None or el.get("y") is not None:
+            ext = local_extent(el, depth)
+            slack = slack + anorm(T) * 0.0005 * (2 * ext + 2)
         T = amul(T, parse_transform(el.get("transform")))
         op = _num(el.get("opacity"), 1.0)
         if tag == SVGNS + "g":
             kids = []
             for ch in el:
-                kids.extend(render(ch, T, attrs, depth + 1))
+                kids.extend(render(ch, T, attrs, depth + 1, slack))
             return [("group", op, kids)] if op != 1.0 else kids
         if tag == SVGNS + "use":
             href = el.get(XLINK) or el.get("href")
@@ -525,7 +535,7 @@ def otsvg_picture(doc_text, gid):
                 problems.append(f"href {href} does not resolve in this document")
                 return []
             T2 = amul(T, (1, 0, 0, 1, _num(el.get("x"), 0.0), _num(el.get("y"), 0.0)))
-            kids = render(tgt[0], T2, attrs, depth + 1)
+            kids = render(tgt[0], T2, attrs, depth + 1, slack)
             return [("group", op, kids)] if op != 1.0 else kids
         if tag == SVGNS + "path":
             src = polylines_from_svg_d(el.get("d"))
@@ -541,17 +551,69 @@ def otsvg_picture(doc_text, gid):
             else:
                 rgb, a, idx = parse_css_color(fill)
                 f = ("solid", rgb, a * op, idx)
-            return [("shape", map_polys(amul(MIRROR, T), src), f, el.get("id") or el.get("d")[:30])]
+            return [("shape", map_polys(amul(MIRROR, T), src), f, el.get("id") or el.get("d")[:30], 1.0, slack)]
         if tag == SVGNS + "defs":
             return []
         problems.append(f"unexpected element {tag}")
         return []
+
+    def local_extent(el, depth):
+        """max |coordinate| of the content below el, in el's child coordinate space"""
+        if depth > 16:
+            return 0.0
+        m = 0.0
+        if el.tag == SVGNS + "path":
+            for poly in polylines_from_svg_d(el.get("d")):
+                for p in poly:
+                    m = max(m, abs(p[0]), abs(p[1]))
+            return m
+        if el.tag == SVGNS + "use":
+            href = el.get(XLINK) or el.get("href")
+            tgt = byid.get(href[1:], []) if href and href.startswith("#") else []
+            if len(tgt) == 1:
+                t = parse_transform(tgt[0].get("transform"))
+                e = local_extent(tgt[0], depth + 1)
+                return anorm(t) * e + abs(t[4]) + abs(t[5]) + abs(_num(el.get("x"), 0.0)) + abs(_num(el.get("y"), 0.0))
+            return 0.0
+        for ch in el:
+            if ch.tag == SVGNS + "defs":
+                continue
+            t = parse_transform(ch.get("transform"))
+            e = local_extent(ch, depth + 1)
+            m = max(m, anorm(t) * e + abs(t[4]) + abs(t[5]))
+        return m
 
     # transforms of ancestors of the glyph element apply too (nanoemoji puts none)
     return render(gl[0], ID, {}), problems
 
 
 # ------------------------------------------------------------------------------- compare
+
+
+def _scale_alpha(fill, k):
+    if fill[0] == "solid":
+        return ("solid", fill[1], fill[2] * k, fill[3])
+    if fill[0] in ("linear", "radial"):
+        return (fill[0], [(o, c, a * k, i) for o, c, a, i in fill[1]]) + tuple(fill[2:])
+    return fill
+
+
+def simplify(items):
+    """A group around a single shape is that shape with its alpha multiplied."""
+    out = []
+    for it in items:
+        if it[0] == "group":
+            kids = simplify(it[2])
+            if len(kids) == 1 and kids[0][0] == "shape":
+                k = kids[0]
+                out.append(("shape", k[1], _scale_alpha(k[2], it[1])) + tuple(k[3:]))
+            elif it[1] == 1.0:
+                out.extend(kids)
+            else:
+                out.append(("group", it[1], kids))
+        else:
+            out.append(it)
+    return out
 
 
 def flatten(items, alpha_stack=(), counter=None):
@@ -640,23 +702,24 @@ def compare_fill(e, a, bbox, unit_tol, palette_check=None):
     return probs
 
 
-def compare_pictures(expected, actual, eps, unit_tol=1.0, palette_check=True, extra_eps=0.0):
+def compare_pictures(expected, actual, eps, unit_tol=1.0, palette_check=True, extra_eps=0.0, use_slack=True):
     """Layer-for-layer comparison.  eps: boundary tolerance in font units for an outline drawn
     at its own scale; it is multiplied by the norm of the transform that places a reused
     outline (quantisation of the donor is magnified by it).  extra_eps is added unscaled."""
     probs = []
-    E, A = flatten(expected), flatten(actual)
+    E, A = flatten(simplify(expected)), flatten(simplify(actual))
     if len(E) != len(A):
         return [f"{len(A)} layers != expected {len(E)}"]
     for i, ((e, ealpha), (a, aalpha)) in enumerate(zip(E, A)):
         if len(ealpha) != len(aalpha) or any(abs(x[0] - y[0]) > 0.005 or x[1] != y[1] for x, y in zip(ealpha, aalpha)):
             probs.append(f"layer {i}: group alphas {aalpha} != expected {ealpha}")
         d = boundary_distance(e[1], a[1])
-        tol = eps * max(1.0, a[4] if len(a) > 4 else 1.0, e[4] if len(e) > 4 else 1.0) + extra_eps
+        slack = (a[5] if len(a) > 5 else 0.0) if use_slack else 0.0
+        tol = eps * max(1.0, a[4] if len(a) > 4 else 1.0, e[4] if len(e) > 4 else 1.0) + extra_eps + slack
         if d > tol:
             probs.append(f"layer {i} ({a[3]}): outline is {d:.2f} units from the source shape (tol {tol:.2f})")
             continue
         sc = max(1.0, a[4] if len(a) > 4 else 1.0, e[4] if len(e) > 4 else 1.0)
-        for p in compare_fill(e[2], a[2], polys_bbox(e[1]), unit_tol * sc, palette_check):
+        for p in compare_fill(e[2], a[2], polys_bbox(e[1]), unit_tol * sc + slack, palette_check):
             probs.append(f"layer {i} ({a[3]}): {p}")
     return probs
